@@ -56,6 +56,12 @@ def main(argv=None):
             return 3
         raise
     chk = Check(a.pid, a.tier, seed, a.repo, title=getattr(mod, "TITLE", ""))
+    try:
+        # the evidence level is the category claimed in MANIFEST.json (generated from the same registry)
+        from contracts.registry import CLAIMED
+        chk.level = CLAIMED.get(a.pid, {}).get("category", chk.level)
+    except Exception:  # noqa
+        pass
     child_out = os.environ.get("PYVC_SECTION_OUT")
     try:
         mod.run(chk)
